@@ -1,6 +1,7 @@
 //! pckb-verif: runtime monitors for the pc-keyboard properties C01–C20 (see /verif/DESIGN.md).
 pub mod json;
 pub mod keys;
+#[macro_use]
 pub mod layouts;
 pub mod model;
 pub mod refs;
@@ -20,3 +21,5 @@ pub mod mon_compose;
 pub mod mon_nopanic;
 pub mod replay;
 pub mod mon_through;
+pub mod novelty;
+pub mod hidden;
